@@ -289,4 +289,52 @@ def hijackedBy (mc : String → List (String × Step)) (mac name : String) (s : 
 
 def hijacked (mac name : String) (s : Step) : Bool := hijackedBy methodCalls mac name s
 
+/-! ### 5. the closure PARAMETER is pasted as the pattern of a `let` of the expansion
+
+  `let $($pattern)* = <place>;` — with a binding mode in the pattern (`ref x`, `ref mut x`, also inside a tuple /
+  struct pattern) the caller's variable is a REFERENCE to whatever place stands on the right. -/
+
+/-- what stands on the right of `let <pattern> = ..` -/
+inductive PatPlace where
+  | temp            -- a block `{ i }`: a copy in a temporary (`from_fn!` since b7532cf)
+  | behindShared    -- `array[i]` with `array: &[T; N]` (`map!`)
+  | immLocal        -- a local of the expansion that is not declared `mut` (`map_!`: `__konst_am_elem`)
+  | counterBumped   -- the loop counter, which the expansion increments right after the `let` (`from_fn_!`)
+  | counter         -- the loop counter, incremented after the closure body (`from_fn!` as found, finding F11d)
+deriving DecidableEq, Repr
+
+/-- binding mode of the caller's variable -/
+inductive BindMode where
+  | move | mutMove | ref | refMut
+deriving DecidableEq, Repr
+
+inductive PatVerdict where
+  | accept           -- compiles; the variable refers to the element / a copy of the index only
+  | reject           -- a borrow-check error
+  | aliasesCounter   -- compiles and the closure body holds `&mut` to the expansion's own loop counter
+deriving DecidableEq, Repr
+
+/-- `used`: the closure body mentions the variable (a reference nobody uses ends at once) -/
+def patVerdict : PatPlace → BindMode → (used : Bool) → PatVerdict
+  | _, .move, _ => .accept
+  | _, .mutMove, _ => .accept
+  | .temp, _, _ => .accept
+  | .behindShared, .ref, _ => .accept
+  | .behindShared, .refMut, _ => .reject           -- E0596 cannot borrow data in a `&` reference as mutable
+  | .immLocal, .ref, _ => .accept
+  | .immLocal, .refMut, _ => .reject               -- E0596 not declared as mutable
+  | .counterBumped, _, true => .reject             -- E0503 / E0506: the counter is assigned while borrowed
+  | .counterBumped, _, false => .accept
+  | .counter, .ref, _ => .accept
+  | .counter, .refMut, _ => .aliasesCounter
+
+/-- `__array_map`: `let $pattern = $get_input;` with `$get_input` = `__konst_am_array[__konst_am_i]` (`map!`) /
+    `{ __konst_am_i }` (`from_fn!`); `__array_map2__with_parsed_closure`: `let $pattern = __konst_am_elem;` (`map_!`);
+    `__array_from_fn_with_parsed_closure`: `let $pattern = __konst_am_i; __konst_am_i += 1; $mapper` (`from_fn_!`) -/
+def patPlace : String → PatPlace
+  | "map" => .behindShared
+  | "from_fn" => .temp
+  | "map_" => .immLocal
+  | _ => .counterBumped
+
 end Konst.ArrayEval
